@@ -138,8 +138,10 @@ __CPROVER_ensures((0 <= gq && gq < __CPROVER_return_value) ==> a[gq] != x)
    multiplication (no overflow: all operands bounded); CBMC discharges that equality only for power-of-two V and T
    (job lemma_forms_agree), for other sizes it is a listed assumption. The kernels are verified against this form for
    every (V,T) of the sweep. */
-#define SPEC_INDEX(s, b)                                                                                              \
-  (g_prefix[g_pos[SEGJ(s, b)]] * C02_V * C02_T + TMUL(TIDX(s, b), (s)->offset_3d_data) + AXI(s, b) * C02_V * C02_T + VWI(s, b) * C02_T + TGI(s, b))
+#define SPEC_INDEX5(s, seg, ax, vw, tg, tof)                                                                          \
+  (g_prefix[g_pos[(seg) - (s)->min_seg]] * C02_V * C02_T + TMUL(((s)->num_tof > 1 ? (long)g_tpos[(tof) - (s)->min_tof] : 0L), (s)->offset_3d_data) \
+   + ((long)((ax) - (s)->min_ax[(seg) - (s)->min_seg])) * C02_V * C02_T + ((long)((vw) - (s)->min_view)) * C02_T + ((long)((tg) - (s)->min_tang)))
+#define SPEC_INDEX(s, b) SPEC_INDEX5(s, (b)->segment_num, (b)->axial_pos_num, (b)->view_num, (b)->tangential_pos_num, (b)->timing_pos_num)
 /* instance of lemma P (h_lemma_prefix_monotone, proved from PD_VALID_CORE) for the bin's own segment: the segment's block
    of axial positions lies inside the total */
 #define PREFIX_FACT(s, b)                                                                                             \
@@ -164,11 +166,23 @@ __CPROVER_ensures((0 <= gq && gq < __CPROVER_return_value) ==> a[gq] != x)
    + (((s)->storage_order == Segment_AxialPos_View_TangPos || (s)->storage_order == Timing_Segment_AxialPos_View_TangPos)       \
           ? (((SEGROW0(s, b) + AXI(s, b)) * C02_V + VWI(s, b)) * C02_T + TGI(s, b)) * C02_E                            \
           : ((SEGROW0(s, b) * C02_V + VWI(s, b) * NAXI(s, SEGJ(s, b)) + AXI(s, b)) * C02_T + TGI(s, b)) * C02_E))
-#define SPEC_OFFSET(s, b)                                                                                             \
-  ((s)->offset + g_prefix[g_pos[SEGJ(s, b)]] * C02_V * C02_T * C02_E + TMUL(TIDX(s, b), (s)->offset_3d_data)          \
+/* v * X for a view index 0 <= v < C02_V <= 16, written as a selection among constant multiples (no symbolic x symbolic multiplier in the specification) */
+#if C02_V <= 16
+#define VMUL(v, X)                                                                                                    \
+  ((v) == 0 ? 0L : (v) == 1 ? (X) : (v) == 2 ? 2 * (X) : (v) == 3 ? 3 * (X) : (v) == 4 ? 4 * (X) : (v) == 5 ? 5 * (X) : (v) == 6 ? 6 * (X) : (v) == 7 ? 7 * (X) \
+   : (v) == 8 ? 8 * (X) : (v) == 9 ? 9 * (X) : (v) == 10 ? 10 * (X) : (v) == 11 ? 11 * (X) : (v) == 12 ? 12 * (X) : (v) == 13 ? 13 * (X) : (v) == 14 ? 14 * (X) : 15 * (X))
+#else
+#define VMUL(v, X) ((v) * (X))
+#endif
+#define SPEC_OFFSET5(s, seg, ax, vw, tg, tof)                                                                         \
+  ((s)->offset + g_prefix[g_pos[(seg) - (s)->min_seg]] * C02_V * C02_T * C02_E                                        \
+   + TMUL(((s)->num_tof > 1 ? (long)g_tpos[(tof) - (s)->min_tof] : 0L), (s)->offset_3d_data)                          \
    + (((s)->storage_order == Segment_AxialPos_View_TangPos || (s)->storage_order == Timing_Segment_AxialPos_View_TangPos)       \
-          ? AXI(s, b) * C02_V * C02_T * C02_E + VWI(s, b) * C02_T * C02_E + TGI(s, b) * C02_E                          \
-          : VWI(s, b) * NAXI(s, SEGJ(s, b)) * C02_T * C02_E + AXI(s, b) * C02_T * C02_E + TGI(s, b) * C02_E))
+          ? ((long)((ax) - (s)->min_ax[(seg) - (s)->min_seg])) * C02_V * C02_T * C02_E + ((long)((vw) - (s)->min_view)) * C02_T * C02_E \
+                + ((long)((tg) - (s)->min_tang)) * C02_E                                                              \
+          : VMUL((long)((vw) - (s)->min_view), (long)NAXI(s, (seg) - (s)->min_seg) * C02_T * C02_E)                   \
+                + ((long)((ax) - (s)->min_ax[(seg) - (s)->min_seg])) * C02_T * C02_E + ((long)((tg) - (s)->min_tang)) * C02_E))
+#define SPEC_OFFSET(s, b) SPEC_OFFSET5(s, (b)->segment_num, (b)->axial_pos_num, (b)->view_num, (b)->tangential_pos_num, (b)->timing_pos_num)
 #define CONTRACT_K_pds_get_offset                                                                                    \
   __CPROVER_requires(__CPROVER_is_fresh(self, sizeof(*self)) && __CPROVER_is_fresh(this_bin, sizeof(*this_bin)) && g_error == 0) \
   __CPROVER_requires(PD_VALID_CORE(self) && PREFIX_FACT(self, this_bin) && self->elsize == C02_E && self->offset_3d_data == TOTAL_SINOS(self) * C02_V * C02_T * C02_E) \
@@ -238,4 +252,318 @@ FSS_IN(num_rings_per_segment)
   __CPROVER_loop_invariant(FSS_DONE(g_r < i ? 1 : 0) && (g_r < i ==> FSS_SPEC))                                        \
   __CPROVER_decreases(num_segments - i)
 
+
+/* ================= ProjDataInMemory access paths (viewgram / sinogram), statement kernels =================
+   The buffer (Array<1,float>) is projected onto one ghost element index g_idx; detail::copy_data_to_buffer(buffer, X, off)
+   copies X.size_all() consecutive floats to buffer[off...), copy_data_from_buffer reads them.  get_index is used by CONTRACT
+   (its closed form SPEC_INDEX).  From the property: "a value written through any access path (single bin, sinogram, viewgram
+   ...) is read back unchanged through every other path and no other bin changes": the element of bin b always lives at
+   SPEC_INDEX(b); a path writes exactly the elements of its own bins. Ghost bin g_bin: any bin of the data.
+   That the copied block lies inside the buffer is not asserted here: clause E2 below shows every copied element is
+   SPEC_INDEX of an in-range bin, and "index inside the buffer" for in-range bins is an obligation of lemma_index_injective. */
+/* d / c for a constant c > 0 and 0 <= d < 2^48, as the unique q with q*c <= d < q*c + c (a multiplication by a constant
+   instead of a 64-bit divider circuit; the assumption is satisfiable for every such d, so no path is cut) */
+long nondet_long(void);
+static inline long K_div(long d, long c)
+{
+  __CPROVER_assert(d >= 0 && d < (1L << 48) && c > 0 && c < 4096, "K_div domain");
+  long q = nondet_long();
+  __CPROVER_assume(q >= 0 && q <= d && q * c <= d && d - q * c < c);
+  return q;
+}
+struct Bin g_bin;           /* ghost bin (in range) */
+long g_idx;                 /* ghost element index == SPEC_INDEX(g_bin) (tied in requires) */
+int g_buf_writes;           /* how often buffer[g_idx] was written */
+int g_src_ax, g_src_view, g_src_tang; /* ghost: which element of the source object was written there (axial, view, tang) */
+long g_read_idx;            /* ghost: the buffer index the element (g_bin's coordinates) of the destination object was read from */
+int g_reads;
+#define BUF_SIZE(s) (TMUL((s)->num_tof, (s)->offset_3d_data))
+/* copy_data_to_buffer(buffer, v[ax] (a row of T tangential positions), off) */
+#define BUF_ROW_TO(s, off, ax, view)                                                                                  \
+  do                                                                                                                  \
+    {                                                                                                                 \
+      const long K_off = (off);                                                                                       \
+      if (g_idx >= K_off && g_idx < K_off + C02_T)                                                                    \
+        {                                                                                                             \
+          ++g_buf_writes;                                                                                             \
+          g_src_ax = (ax); g_src_view = (view); g_src_tang = (s)->min_tang + (int)(g_idx - K_off);                    \
+        }                                                                                                             \
+    }                                                                                                                 \
+  while (0)
+/* copy_data_from_buffer(buffer, viewgram[ax], off) */
+#define BUF_ROW_FROM(s, off, ax, view)                                                                                \
+  do                                                                                                                  \
+    {                                                                                                                 \
+      const long K_off = (off);                                                                                       \
+      if ((ax) == g_bin.axial_pos_num && (view) == g_bin.view_num)                                                    \
+        {                                                                                                             \
+          ++g_reads;                                                                                                  \
+          g_read_idx = K_off + (g_bin.tangential_pos_num - (s)->min_tang);                                            \
+        }                                                                                                             \
+    }                                                                                                                 \
+  while (0)
+/* whole sinogram (V x T block, views outer): copy_data_to_buffer(buffer, s, off) / from */
+#define BUF_SINO_TO(s, off, ax)                                                                                       \
+  do                                                                                                                  \
+    {                                                                                                                 \
+      const long K_off = (off);                                                                                       \
+      if (g_idx >= K_off && g_idx < K_off + (long)C02_V * C02_T)                                                      \
+        {                                                                                                             \
+          const long K_q = K_div(g_idx - K_off, C02_T);                                                               \
+          ++g_buf_writes;                                                                                             \
+          g_src_ax = (ax); g_src_view = (s)->min_view + (int)K_q; g_src_tang = (s)->min_tang + (int)((g_idx - K_off) - K_q * C02_T); \
+        }                                                                                                             \
+    }                                                                                                                 \
+  while (0)
+#define BUF_SINO_FROM(s, off, ax)                                                                                     \
+  do                                                                                                                  \
+    {                                                                                                                 \
+      const long K_off = (off);                                                                                       \
+      if ((ax) == g_bin.axial_pos_num)                                                                                \
+        {                                                                                                             \
+          ++g_reads;                                                                                                  \
+          g_read_idx = K_off + (long)(g_bin.view_num - (s)->min_view) * C02_T + (g_bin.tangential_pos_num - (s)->min_tang); \
+        }                                                                                                             \
+    }                                                                                                                 \
+  while (0)
+#define K_RETURN_IF_ERROR(val)                                                                                        \
+  do                                                                                                                  \
+    {                                                                                                                 \
+      if (g_error)                                                                                                    \
+        return val;                                                                                                   \
+    }                                                                                                                 \
+  while (0)
+#define PREFIX_FACT_SEG(s, seg)                                                                                       \
+  (!((seg) >= (s)->min_seg && (seg) <= (s)->max_seg)                                                                   \
+   || (g_prefix[g_pos[(seg) - (s)->min_seg]] >= 0 && g_prefix[g_pos[(seg) - (s)->min_seg]] + NAXI(s, (seg) - (s)->min_seg) <= TOTAL_SINOS(s) && TOTAL_SINOS(s) <= (long)MAXSEGS * 8192))
+#define PATH_PRE(self)                                                                                                \
+  (PD_VALID_CORE(self) && (self)->offset_3d_data == TOTAL_SINOS(self) * C02_V * C02_T && g_error == 0                   \
+   && BIN_IN_RANGE(self, &g_bin) && PREFIX_FACT(self, &g_bin) && g_buf_writes == 0 && g_reads == 0)
+#define SAME_VG(seg, view, tof) (g_bin.segment_num == (seg) && g_bin.view_num == (view) && g_bin.timing_pos_num == (tof))
+#define SAME_SG(seg, ax, tof) (g_bin.segment_num == (seg) && g_bin.axial_pos_num == (ax) && g_bin.timing_pos_num == (tof))
+#define VG_ARGS_OK(self, seg, view, tof) ((seg) >= (self)->min_seg && (seg) <= (self)->max_seg && (view) >= (self)->min_view && (view) <= (self)->max_view && (tof) >= (self)->min_tof && (tof) <= (self)->max_tof)
+#define AX_IN_SEG(self, seg, ax) ((ax) >= (self)->min_ax[(seg) - (self)->min_seg] && (ax) <= (self)->max_ax[(seg) - (self)->min_seg])
+#define TG_IN(self, tg) ((tg) >= (self)->min_tang && (tg) <= (self)->max_tang)
+#define VW_IN(self, vw) ((vw) >= (self)->min_view && (vw) <= (self)->max_view)
+/* set_viewgram (statement kernel from 'const int segment_num = v.get_segment_num();'), for an arbitrary buffer element g_idx
+   and an arbitrary bin g_bin of the data:
+   (E1) the element is written at most once;
+   (E2) if written, it is the element SPEC_INDEX of a bin (segment, view, ax, tang, TOF) of THIS viewgram and receives
+        the viewgram's value at (ax, tang);
+   (E3) if g_bin is a bin of this viewgram, its element SPEC_INDEX(g_bin) is written, from v[g_bin.ax][g_bin.tang].
+   With "different bins have different elements" (lemma_index_injective) E2 gives: the element of a bin outside this
+   viewgram is not written. */
+#define CONTRACT_K_pdm_set_viewgram                                                                                  \
+  __CPROVER_requires(__CPROVER_is_fresh(self, sizeof(*self)) && PATH_PRE(self) && VG_ARGS_OK(self, v_segment_num, v_view_num, v_timing_pos_num) && PREFIX_FACT_SEG(self, v_segment_num)) \
+  __CPROVER_assigns(g_error, g_buf_writes, g_src_ax, g_src_view, g_src_tang)                                           \
+  __CPROVER_ensures(!g_error && __CPROVER_return_value == 1 && g_buf_writes <= 1)                                      \
+  __CPROVER_ensures(g_buf_writes == 1 ==> (AX_IN_SEG(self, v_segment_num, g_src_ax) && TG_IN(self, g_src_tang)        \
+                                            && g_idx == SPEC_INDEX5(self, v_segment_num, g_src_ax, v_view_num, g_src_tang, v_timing_pos_num))) \
+  __CPROVER_ensures((SAME_VG(v_segment_num, v_view_num, v_timing_pos_num) && g_idx == SPEC_INDEX(self, &g_bin))        \
+                    ==> (g_buf_writes == 1 && g_src_ax == g_bin.axial_pos_num && g_src_tang == g_bin.tangential_pos_num))
+#define LC_K_pdm_set_viewgram_0                                                                                      \
+  __CPROVER_assigns(bin.axial_pos_num, g_error, g_buf_writes, g_src_ax, g_src_view, g_src_tang)                        \
+  __CPROVER_loop_invariant(bin.axial_pos_num >= self->min_ax[segment_num - self->min_seg] && bin.axial_pos_num <= self->max_ax[segment_num - self->min_seg] + 1) \
+  __CPROVER_loop_invariant(!g_error && bin.segment_num == segment_num && bin.view_num == view_num && bin.timing_pos_num == timing_pos && bin.tangential_pos_num == self->min_tang) \
+  __CPROVER_loop_invariant(g_buf_writes >= 0 && g_buf_writes <= 1)                                                     \
+  __CPROVER_loop_invariant(g_buf_writes == 1 ==> (g_src_ax >= self->min_ax[segment_num - self->min_seg] && g_src_ax < bin.axial_pos_num && TG_IN(self, g_src_tang) \
+                                            && g_idx == SPEC_INDEX5(self, segment_num, g_src_ax, view_num, g_src_tang, timing_pos))) \
+  __CPROVER_loop_invariant((SAME_VG(segment_num, view_num, timing_pos) && g_idx == SPEC_INDEX(self, &g_bin) && g_bin.axial_pos_num < bin.axial_pos_num) \
+                    ==> (g_buf_writes == 1 && g_src_ax == g_bin.axial_pos_num && g_src_tang == g_bin.tangential_pos_num)) \
+  __CPROVER_decreases(self->max_ax[segment_num - self->min_seg] + 1 - bin.axial_pos_num)
+/* get_viewgram: for an arbitrary element (ax, tang) = (g_bin.ax, g_bin.tang) of the returned viewgram: it is read exactly once,
+   from SPEC_INDEX of the bin (segment, view, ax, tang, TOF) */
+#define CONTRACT_K_pdm_get_viewgram                                                                                  \
+  __CPROVER_requires(__CPROVER_is_fresh(self, sizeof(*self)) && PATH_PRE(self) && SAME_VG(segment_num, view_num, timing_pos)) \
+  __CPROVER_assigns(g_error, g_reads, g_read_idx)                                                                      \
+  __CPROVER_ensures(!g_error && g_reads == 1 && g_read_idx == SPEC_INDEX(self, &g_bin))
+#define LC_K_pdm_get_viewgram_0                                                                                      \
+  __CPROVER_assigns(bin.axial_pos_num, g_error, g_reads, g_read_idx)                                                   \
+  __CPROVER_loop_invariant(bin.axial_pos_num >= self->min_ax[segment_num - self->min_seg] && bin.axial_pos_num <= self->max_ax[segment_num - self->min_seg] + 1) \
+  __CPROVER_loop_invariant(!g_error && bin.segment_num == segment_num && bin.view_num == view_num && bin.timing_pos_num == timing_pos && bin.tangential_pos_num == self->min_tang) \
+  __CPROVER_loop_invariant(g_reads == (g_bin.axial_pos_num < bin.axial_pos_num ? 1 : 0) && (g_reads == 1 ==> g_read_idx == SPEC_INDEX(self, &g_bin))) \
+  __CPROVER_decreases(self->max_ax[segment_num - self->min_seg] + 1 - bin.axial_pos_num)
+/* set_sinogram / get_sinogram: one V x T block */
+#define SG_ARGS_OK(self, seg, ax, tof) ((seg) >= (self)->min_seg && (seg) <= (self)->max_seg && AX_IN_SEG(self, seg, ax) && (tof) >= (self)->min_tof && (tof) <= (self)->max_tof)
+#define CONTRACT_K_pdm_set_sinogram                                                                                  \
+  __CPROVER_requires(__CPROVER_is_fresh(self, sizeof(*self)) && PATH_PRE(self) && SG_ARGS_OK(self, s_segment_num, s_axial_pos_num, s_timing_pos_num) && PREFIX_FACT_SEG(self, s_segment_num)) \
+  __CPROVER_assigns(g_error, g_buf_writes, g_src_ax, g_src_view, g_src_tang)                                           \
+  __CPROVER_ensures(!g_error && __CPROVER_return_value == 1 && g_buf_writes <= 1)                                      \
+  __CPROVER_ensures(g_buf_writes == 1 ==> (VW_IN(self, g_src_view) && TG_IN(self, g_src_tang)                          \
+                                            && g_idx == SPEC_INDEX5(self, s_segment_num, s_axial_pos_num, g_src_view, g_src_tang, s_timing_pos_num))) \
+  __CPROVER_ensures((SAME_SG(s_segment_num, s_axial_pos_num, s_timing_pos_num) && g_idx == SPEC_INDEX(self, &g_bin))   \
+                    ==> (g_buf_writes == 1 && g_src_view == g_bin.view_num && g_src_tang == g_bin.tangential_pos_num))
+#define CONTRACT_K_pdm_get_sinogram                                                                                  \
+  __CPROVER_requires(__CPROVER_is_fresh(self, sizeof(*self)) && PATH_PRE(self) && SAME_SG(segment_num, ax_pos_num, timing_pos)) \
+  __CPROVER_assigns(g_error, g_reads, g_read_idx)                                                                      \
+  __CPROVER_ensures(!g_error && g_reads == 1 && g_read_idx == SPEC_INDEX(self, &g_bin))
+
+/* ================= ProjDataFromStream write paths: set_bin_value, set_viewgram, set_sinogram, set_segment (x2) =================
+   Statement kernels (set_bin_value: whole function). The stream is projected onto ghost state:
+     g_seek    put position after the last checked_seekp
+     g_dirty   1 after a write_data that has not been followed by sino_stream->flush()
+     g_foff    one arbitrary byte offset of the file (stands for every element start), g_fwrites = how often the element
+               starting there was written, g_src_* = which element of the written object went there
+   checked_seekp / write_data may fail (exception resp. Succeeded::no; both nondeterministic); write_data may change 'scale'.
+   From the property: "written values are visible to an independent reader of the file as soon as each write call
+   returns" (F: a call that returns normally leaves nothing unflushed) and "a value written through any access path
+   ... is read back unchanged through every other path and no other bin changes ... whatever the storage order" (E1-E3
+   as for the in-memory paths, with SPEC_OFFSET, the byte offset get_offset is proved to return). */
+long g_seek, g_foff;
+int g_dirty, g_fwrites, g_stream_null, g_stream_bad, g_nonfloat;
+float g_scale_factor;
+long g_blk_start, g_blk_elems; /* set_segment(by view): start and size of the one block written */
+_Bool nondet_bool(void);
+float nondet_float(void);
+#define K_IS_NULL_STREAM (g_stream_null != 0)
+#define K_BAD_STREAM (g_stream_bad != 0)
+static inline void K_seekp(long off)
+{
+  if (nondet_bool())
+    {
+      g_error = 1; /* checked_seekp calls error() */
+      return;
+    }
+  g_seek = off;
+}
+static inline void K_flush(void) { g_dirty = 0; }
+/* write_data(*sino_stream, <block of n elements>, on_disk_data_type, scale, on_disk_byte_order): element k goes to
+   byte offset g_seek + k*E. shape: 0 one value, 1 row of T (axial position ax, view vw), 2 viewgram nax x T (view vw),
+   3 sinogram V x T (axial position ax), 4 segment by sinogram nax x V x T, 5 segment by view V x nax x T */
+static inline int K_write_data(const struct PD* self, float* scale, int shape, int seg, int ax, int vw, int tg)
+{
+  const long nax = NAXI(self, seg - self->min_seg);
+  const long n = shape == 0 ? 1 : shape == 1 ? C02_T : shape == 2 ? nax * C02_T : shape == 3 ? (long)C02_V * C02_T : nax * C02_V * C02_T;
+  g_dirty = 1;
+  if (shape == 5)
+    {
+      g_blk_start = g_seek;
+      g_blk_elems = n;
+    }
+  else if (g_foff >= g_seek && g_foff < g_seek + n * C02_E)
+    {
+      const long d = g_foff - g_seek;
+      const long k = K_div(d, C02_E);
+      if (k * C02_E == d) /* g_foff is the start of element k of the block */
+        {
+          ++g_fwrites;
+          if (shape == 0)
+            {
+              g_src_ax = ax; g_src_view = vw; g_src_tang = tg;
+            }
+          else if (shape == 1)
+            {
+              g_src_ax = ax; g_src_view = vw; g_src_tang = self->min_tang + (int)k;
+            }
+          else if (shape == 2 || shape == 3)
+            {
+              const long q = K_div(k, C02_T);
+              g_src_ax = shape == 2 ? self->min_ax[seg - self->min_seg] + (int)q : ax;
+              g_src_view = shape == 3 ? self->min_view + (int)q : vw;
+              g_src_tang = self->min_tang + (int)(k - q * C02_T);
+            }
+          else
+            {
+              const long qa = K_div(k, C02_V * C02_T), r = k - qa * (C02_V * C02_T), qv = K_div(r, C02_T);
+              g_src_ax = self->min_ax[seg - self->min_seg] + (int)qa;
+              g_src_view = self->min_view + (int)qv;
+              g_src_tang = self->min_tang + (int)(r - qv * C02_T);
+            }
+        }
+    }
+  *scale = nondet_float();
+  return nondet_bool() ? 1 : 0;
+}
+#define K_PROPAGATE_OR_RETURN(val)                                                                                    \
+  do                                                                                                                  \
+    {                                                                                                                 \
+      if (g_error)                                                                                                    \
+        return val;                                                                                                   \
+    }                                                                                                                 \
+  while (0)
+#define PDS_PRE(self)                                                                                                 \
+  (PD_VALID_CORE(self) && (self)->elsize == C02_E && (self)->offset_3d_data == TOTAL_SINOS(self) * C02_V * C02_T * C02_E \
+   && (self)->offset >= 0 && (self)->offset < (1L << 40) && g_error == 0 && BIN_IN_RANGE(self, &g_bin) && PREFIX_FACT(self, &g_bin) \
+   && g_dirty == 0 && g_fwrites == 0 && (self)->storage_order >= Segment_AxialPos_View_TangPos && (self)->storage_order <= Unsupported)
+#define PDS_ASSIGNS g_error, g_dirty, g_seek, g_fwrites, g_src_ax, g_src_view, g_src_tang, g_blk_start, g_blk_elems
+#define IS_G_BIN(b) ((b)->segment_num == g_bin.segment_num && (b)->axial_pos_num == g_bin.axial_pos_num && (b)->view_num == g_bin.view_num \
+                     && (b)->tangential_pos_num == g_bin.tangential_pos_num && (b)->timing_pos_num == g_bin.timing_pos_num)
+/* set_bin_value: F; E1-E3 for the one element */
+#define CONTRACT_K_pds_set_bin_value                                                                                  \
+  __CPROVER_requires(__CPROVER_is_fresh(self, sizeof(*self)) && __CPROVER_is_fresh(this_bin, sizeof(*this_bin)) && PDS_PRE(self) && PREFIX_FACT(self, this_bin)) \
+  __CPROVER_assigns(PDS_ASSIGNS)                                                                                       \
+  __CPROVER_ensures(!g_error ==> g_dirty == 0) /* F */                                                                 \
+  __CPROVER_ensures(g_fwrites <= 1 && (g_fwrites == 1 ==> (BIN_IN_RANGE(self, this_bin) && g_foff == SPEC_OFFSET(self, this_bin)))) \
+  __CPROVER_ensures((!g_error && IS_G_BIN(this_bin) && g_foff == SPEC_OFFSET(self, &g_bin)) ==> g_fwrites == 1)        \
+  __CPROVER_ensures(!BIN_IN_RANGE(self, this_bin) ==> (g_error && g_fwrites == 0 && g_dirty == 0))
+/* set_viewgram, both storage orders (row by row / in one go) */
+#define CONTRACT_K_pds_set_viewgram                                                                                   \
+  __CPROVER_requires(__CPROVER_is_fresh(self, sizeof(*self)) && PDS_PRE(self) && VG_ARGS_OK(self, v_segment_num, v_view_num, v_timing_pos_num) && PREFIX_FACT_SEG(self, v_segment_num)) \
+  __CPROVER_assigns(PDS_ASSIGNS)                                                                                       \
+  __CPROVER_ensures(!g_error ==> (g_dirty == 0 && __CPROVER_return_value == 1)) /* F: normal return = success = flushed */ \
+  __CPROVER_ensures(g_fwrites <= 1)                                                                                    \
+  __CPROVER_ensures(g_fwrites == 1 ==> (AX_IN_SEG(self, v_segment_num, g_src_ax) && TG_IN(self, g_src_tang)           \
+                                         && g_foff == SPEC_OFFSET5(self, v_segment_num, g_src_ax, v_view_num, g_src_tang, v_timing_pos_num))) \
+  __CPROVER_ensures((!g_error && SAME_VG(v_segment_num, v_view_num, v_timing_pos_num) && g_foff == SPEC_OFFSET(self, &g_bin)) \
+                    ==> (g_fwrites == 1 && g_src_ax == g_bin.axial_pos_num && g_src_tang == g_bin.tangential_pos_num))
+#define LC_K_pds_set_viewgram_0                                                                                       \
+  __CPROVER_assigns(bin.axial_pos_num, scale, succeeded, PDS_ASSIGNS)                                                  \
+  __CPROVER_loop_invariant(bin.axial_pos_num >= self->min_ax[segment_num - self->min_seg] && bin.axial_pos_num <= self->max_ax[segment_num - self->min_seg] + 1) \
+  __CPROVER_loop_invariant(!g_error && succeeded == 1 && bin.segment_num == segment_num && bin.view_num == view_num && bin.timing_pos_num == timing_pos && bin.tangential_pos_num == self->min_tang) \
+  __CPROVER_loop_invariant(g_fwrites >= 0 && g_fwrites <= 1)                                                           \
+  __CPROVER_loop_invariant(g_fwrites == 1 ==> (g_src_ax >= self->min_ax[segment_num - self->min_seg] && g_src_ax < bin.axial_pos_num && TG_IN(self, g_src_tang) \
+                                         && g_foff == SPEC_OFFSET5(self, segment_num, g_src_ax, view_num, g_src_tang, timing_pos))) \
+  __CPROVER_loop_invariant((SAME_VG(segment_num, view_num, timing_pos) && g_foff == SPEC_OFFSET(self, &g_bin) && g_bin.axial_pos_num < bin.axial_pos_num) \
+                    ==> (g_fwrites == 1 && g_src_ax == g_bin.axial_pos_num && g_src_tang == g_bin.tangential_pos_num)) \
+  __CPROVER_decreases(self->max_ax[segment_num - self->min_seg] + 1 - bin.axial_pos_num)
+/* set_sinogram, both storage orders (in one go / row by row over the views); failure is reported by the return value */
+#define CONTRACT_K_pds_set_sinogram                                                                                   \
+  __CPROVER_requires(__CPROVER_is_fresh(self, sizeof(*self)) && PDS_PRE(self) && SG_ARGS_OK(self, s_segment_num, s_axial_pos_num, s_timing_pos_num) && PREFIX_FACT_SEG(self, s_segment_num)) \
+  __CPROVER_assigns(PDS_ASSIGNS)                                                                                       \
+  __CPROVER_ensures(!g_error && (__CPROVER_return_value == 1 ==> g_dirty == 0)) /* F */                                \
+  __CPROVER_ensures(g_fwrites <= 1)                                                                                    \
+  __CPROVER_ensures(g_fwrites == 1 ==> (VW_IN(self, g_src_view) && TG_IN(self, g_src_tang)                             \
+                                         && g_foff == SPEC_OFFSET5(self, s_segment_num, s_axial_pos_num, g_src_view, g_src_tang, s_timing_pos_num))) \
+  __CPROVER_ensures((__CPROVER_return_value == 1 && SAME_SG(s_segment_num, s_axial_pos_num, s_timing_pos_num) && g_foff == SPEC_OFFSET(self, &g_bin)) \
+                    ==> (g_fwrites == 1 && g_src_view == g_bin.view_num && g_src_tang == g_bin.tangential_pos_num))
+#define LC_K_pds_set_sinogram_0                                                                                       \
+  __CPROVER_assigns(bin.view_num, scale, succeeded, PDS_ASSIGNS)                                                       \
+  __CPROVER_loop_invariant(bin.view_num >= self->min_view && bin.view_num <= self->max_view + 1)                       \
+  __CPROVER_loop_invariant(!g_error && succeeded == 1 && bin.segment_num == segment_num && bin.axial_pos_num == ax_pos_num && bin.timing_pos_num == timing_pos && bin.tangential_pos_num == self->min_tang) \
+  __CPROVER_loop_invariant(g_fwrites >= 0 && g_fwrites <= 1)                                                           \
+  __CPROVER_loop_invariant(g_fwrites == 1 ==> (g_src_view >= self->min_view && g_src_view < bin.view_num && TG_IN(self, g_src_tang) \
+                                         && g_foff == SPEC_OFFSET5(self, segment_num, ax_pos_num, g_src_view, g_src_tang, timing_pos))) \
+  __CPROVER_loop_invariant((SAME_SG(segment_num, ax_pos_num, timing_pos) && g_foff == SPEC_OFFSET(self, &g_bin) && g_bin.view_num < bin.view_num) \
+                    ==> (g_fwrites == 1 && g_src_view == g_bin.view_num && g_src_tang == g_bin.tangential_pos_num))     \
+  __CPROVER_decreases(self->max_view + 1 - bin.view_num)
+/* set_segment: by sinogram (writes the block itself in sinogram order, otherwise converts and calls the other one, used
+   by CONTRACT) and by view (mirror image). gk_depth: ghost recursion depth, bounds the mutual recursion to one hop for the
+   four supported storage orders. */
+#define SEG_ARGS_OK(self, seg, tof) ((seg) >= (self)->min_seg && (seg) <= (self)->max_seg && (tof) >= (self)->min_tof && (tof) <= (self)->max_tof)
+#define ORDER_SUPPORTED(self) ((self)->storage_order >= Segment_AxialPos_View_TangPos && (self)->storage_order <= Timing_Segment_View_AxialPos_TangPos)
+#define ORDER_SINO(self) ((self)->storage_order == Segment_AxialPos_View_TangPos || (self)->storage_order == Timing_Segment_AxialPos_View_TangPos)
+#define SEG_PRE(self) (__CPROVER_is_fresh(self, sizeof(*self)) && PDS_PRE(self) && ORDER_SUPPORTED(self) && SEG_ARGS_OK(self, v_segment_num, v_timing_pos_num) && PREFIX_FACT_SEG(self, v_segment_num))
+/* one block holding the whole segment is written at the offset of the segment's first bin (the order of the elements
+   inside a SegmentByView block - [view][axial][tang] - against SPEC_OFFSET is NOT proved: symbolic nax as a radix) */
+#define SEG_BLOCK_BY_VIEW(self)                                                                                       \
+  (g_blk_start == SPEC_OFFSET5(self, v_segment_num, (self)->min_ax[v_segment_num - (self)->min_seg], (self)->min_view, (self)->min_tang, v_timing_pos_num) \
+   && g_blk_elems == (long)NAXI(self, v_segment_num - (self)->min_seg) * C02_V * C02_T)
+#define SEG_E2(self)                                                                                                  \
+  (g_fwrites == 1 ==> (AX_IN_SEG(self, v_segment_num, g_src_ax) && VW_IN(self, g_src_view) && TG_IN(self, g_src_tang)  \
+                       && g_foff == SPEC_OFFSET5(self, v_segment_num, g_src_ax, g_src_view, g_src_tang, v_timing_pos_num)))
+#define SEG_E3(self)                                                                                                  \
+  ((g_bin.segment_num == v_segment_num && g_bin.timing_pos_num == v_timing_pos_num && g_foff == SPEC_OFFSET(self, &g_bin)) \
+   ==> (g_fwrites == 1 && g_src_ax == g_bin.axial_pos_num && g_src_view == g_bin.view_num && g_src_tang == g_bin.tangential_pos_num))
+#define CONTRACT_K_pds_set_segment_by_sinogram                                                                        \
+  __CPROVER_requires(SEG_PRE(self))                                                                                    \
+  __CPROVER_assigns(PDS_ASSIGNS)                                                                                       \
+  __CPROVER_ensures(!g_error && (__CPROVER_return_value == 1 ==> g_dirty == 0)) /* F */                                \
+  __CPROVER_ensures(ORDER_SINO(self) ? (g_fwrites <= 1 && SEG_E2(self) && (__CPROVER_return_value == 1 ==> SEG_E3(self))) \
+                                     : (__CPROVER_return_value == 1 ==> SEG_BLOCK_BY_VIEW(self)))
+#define CONTRACT_K_pds_set_segment_by_view                                                                            \
+  __CPROVER_requires(SEG_PRE(self))                                                                                    \
+  __CPROVER_assigns(PDS_ASSIGNS)                                                                                       \
+  __CPROVER_ensures(!g_error && (__CPROVER_return_value == 1 ==> g_dirty == 0)) /* F */                                \
+  __CPROVER_ensures(ORDER_SINO(self) ? (g_fwrites <= 1 && SEG_E2(self) && (__CPROVER_return_value == 1 ==> SEG_E3(self))) \
+                                     : (__CPROVER_return_value == 1 ==> SEG_BLOCK_BY_VIEW(self)))
 #endif
